@@ -198,8 +198,8 @@ class DmxWire:
             for t, v in zip(tgt.elts, val.elts):
                 self.bind(t, v)
         elif isinstance(tgt, (ast.Tuple, ast.List)) and len(tgt.elts) == 1 and isinstance(tgt.elts[0], ast.Name) and isinstance(val, ast.Call) \
-                and dotted(val.func) == 'binformat.struct_read' and tgt.elts[0].id == 'size':
-            self.env['size'] = 'VAR'
+                and dotted(val.func) == 'binformat.struct_read':
+            self.env[tgt.elts[0].id] = 'VAR'          # `[n] = struct_read(...)`: a length taken from the file (used as `file.read(n)`)
 
     def stmt(self, st: ast.stmt) -> List[Item]:
         if isinstance(st, ast.If):
@@ -223,7 +223,9 @@ class DmxWire:
             once = False
             if isinstance(st, ast.For):
                 # a scalar attribute is iterated exactly once: `for x in attr.iter_*()` (writer), `for _ in (0,)` (reader)
-                if isinstance(st.iter, ast.Call) and (dotted(st.iter.func) or '').startswith('attr.iter_') and self.ex.cfg.values.get('attr.is_array') is False:
+                is_arr_keys = [k for k in self.ex.cfg.values if k.endswith('.is_array')]
+                if isinstance(st.iter, ast.Call) and isinstance(st.iter.func, ast.Attribute) and st.iter.func.attr.startswith('iter_') and isinstance(st.iter.func.value, ast.Name) \
+                        and is_arr_keys and is_arr_keys[0] == f'{st.iter.func.value.id}.is_array' and self.ex.cfg.values.get(is_arr_keys[0]) is False:
                     once = True
                 if isinstance(st.iter, ast.Name) and self.env.get(st.iter.id) == 'ONE':
                     once = True
@@ -319,7 +321,9 @@ def reader_ref_cases(alt: Any, var: str) -> Dict[Any, str]:
     cases: Dict[Any, str] = {}
     cur = alt
     while True:
-        m = re.fullmatch(re.escape(var) + r' == (-?\d+)', cur[1])
+        m = re.fullmatch((re.escape(var) if var else r'[A-Za-z_]\w*') + r' == (-?\d+)', cur[1])
+        if m and not var:
+            var = cur[1].split(' ')[0]         # the local holding the reference index: whatever the first sentinel test compares
         if not m:
             raise AnalysisError(f'reference decoding: test `{cur[1]}` is not a sentinel comparison of {var}')
         cases[int(m.group(1))] = flat(cur[2])
@@ -540,18 +544,28 @@ def run(ctx: Any, prog: Program) -> None:
     ctx.check('C14.X1', len(set(v2i.values())) == len(v2i), dmx, dmx.global_assign('VAL_TYPE_TO_IND'), 'two value types share a wire code', func='<module>', text='VAL_TYPE_TO_IND injective')
     i2v = {v: k for k, v in v2i.items()}
     # reader classification
-    cls_if = [n for n in walk_no_nested(pb) if isinstance(n, ast.If) and isinstance(n.test, ast.Compare) and dotted(n.test.left) == 'attr_type_data' and dotted(n.test.comparators[0]) == 'ARRAY_OFFSET']
+    cls_if = [n for n in walk_no_nested(pb) if isinstance(n, ast.If) and isinstance(n.test, ast.Compare) and isinstance(n.test.left, ast.Name) and dotted(n.test.comparators[0]) == 'ARRAY_OFFSET']
     if len(cls_if) != 1:
         raise AnalysisError('parse_bin: the scalar/array classification of attr_type_data was not found')
     cif = cls_if[0]
     op = cif.test.ops[0]
-    sub_ok = any(isinstance(s, ast.AugAssign) and isinstance(s.op, ast.Sub) and dotted(s.target) == 'attr_type_data' and dotted(s.value) == 'ARRAY_OFFSET' for s in cif.body)
+    atd_var = cif.test.left.id
+    sub_ok = any(isinstance(s, ast.AugAssign) and isinstance(s.op, ast.Sub) and dotted(s.target) == atd_var and dotted(s.value) == 'ARRAY_OFFSET' for s in cif.body)
+    # reader locals by role: the value type looked up from the code, and the array length that is None for a scalar
+    rtype_vars = sorted({t.id for a in walk_no_nested(pb) if isinstance(a, ast.Assign) and isinstance(a.value, ast.Subscript) and dotted(a.value.value) == 'IND_TO_VALTYPE' for t in a.targets if isinstance(t, ast.Name)})
+    rsize_vars = sorted({t.id for st_ in cif.orelse for a in ast.walk(st_) if isinstance(a, ast.Assign) and isinstance(a.value, ast.Constant) and a.value.value is None for t in a.targets if isinstance(t, ast.Name)})
+    if len(rtype_vars) != 1 or len(rsize_vars) != 1:
+        raise AnalysisError(f'parse_bin: the locals holding the decoded value type / array size were not found ({rtype_vars}, {rsize_vars})')
+    rtype_var, rsize_var = rtype_vars[0], rsize_vars[0]
     if not sub_ok or not isinstance(op, (ast.Gt, ast.GtE)):
         raise AnalysisError('parse_bin: classification idiom changed (expected `if attr_type_data >[=] ARRAY_OFFSET: attr_type_data -= ARRAY_OFFSET`)')
     # writer encoding
     wsrc = U(eb)
-    if 'typ_ind = VAL_TYPE_TO_IND[attr.type]' not in wsrc or 'typ_ind += ARRAY_OFFSET' not in wsrc:
+    code_defs = [a for a in walk_no_nested(eb) if isinstance(a, ast.Assign) and isinstance(a.value, ast.Subscript) and dotted(a.value.value) == 'VAL_TYPE_TO_IND' and isinstance(a.value.slice, ast.Attribute)
+                 and a.value.slice.attr == 'type' and isinstance(a.value.slice.value, ast.Name) and isinstance(a.targets[0], ast.Name)]
+    if len(code_defs) != 1 or not any(isinstance(g, ast.AugAssign) and isinstance(g.op, ast.Add) and dotted(g.target) == code_defs[0].targets[0].id and dotted(g.value) == 'ARRAY_OFFSET' for g in walk_no_nested(eb)):
         raise AnalysisError('export_binary: type code computation idiom changed')
+    wattr_var = code_defs[0].value.slice.value.id
     for m in members:
         if m not in v2i:
             ctx.check('C14.X1', False, dmx, dmx.global_assign('VAL_TYPE_TO_IND'), f'{m} has no wire code', func='<module>', text=f'{m.name} has a code')
@@ -567,10 +581,24 @@ def run(ctx: Any, prog: Program) -> None:
     # ---- X2 ------------------------------------------------------------------------------------------------
     def table(fn: ast.AST, version: int) -> Tuple[Any, Any]:
         w = DmxWire(fold, dmx, {'version': version})
-        for st in fn.body:
-            if isinstance(st, ast.If) and any(isinstance(n, ast.Name) and n.id == 'stringdb_ind' for n in ast.walk(st)) and 'version' in U(st.test):
-                w.stmt(st)
-                return w.env.get('stringdb_size') or None, w.env.get('stringdb_ind') or None
+        for i_st, st in enumerate(fn.body):
+            if not (isinstance(st, ast.If) and 'version' in U(st.test)):
+                continue
+            # the two locals the version test gives struct formats to ('<i' / '<h' / nothing): the table size format and the index format.
+            # The size format is the one the code following the test consults first (count of strings), the other is the per-reference index.
+            fmt_names = sorted({t.id for a in ast.walk(st) if isinstance(a, ast.Assign) and isinstance(a.value, ast.Constant) and (a.value.value is None or (isinstance(a.value.value, str) and (a.value.value == '' or a.value.value.startswith('<'))))
+                                for t in a.targets if isinstance(t, ast.Name)})
+            if len(fmt_names) != 2:
+                continue
+            # the size format is used for ONE read/write (the count of strings); the index format once per reference
+            uses_ = {nm: sum(1 for c in ast.walk(fn) if isinstance(c, ast.Call) and c.args and isinstance(c.args[0], ast.Name) and c.args[0].id == nm) for nm in fmt_names}
+            sizes_ = [n for n in fmt_names if uses_[n] == 1 and uses_[[m for m in fmt_names if m != n][0]] > 1]
+            if len(sizes_) != 1:
+                continue
+            size_var = sizes_[0]
+            ind_var = [n for n in fmt_names if n != size_var][0]
+            w.stmt(st)
+            return w.env.get(size_var) or None, w.env.get(ind_var) or None
         raise AnalysisError('string-table format selection not found')
     for v in range(0, 6):
         r, w_ = table(pb, v), table(eb, v)
@@ -584,8 +612,8 @@ def run(ctx: Any, prog: Program) -> None:
             if m.name == 'TIME' and v < 3:
                 continue
             for arr in (False, True):
-                rv = {'version': v, 'attr_type': m, 'array_size is not None': arr, 'array_size is None': not arr, U(cif.test): arr}
-                wv = {'version': v, 'attr.type': m, 'attr.is_array': arr}
+                rv = {'version': v, rtype_var: m, f'{rsize_var} is not None': arr, f'{rsize_var} is None': not arr, str(U(cif.test)): arr}
+                wv = {'version': v, f'{wattr_var}.type': m, f'{wattr_var}.is_array': arr}
                 rw, ww = DmxWire(fold, dmx, rv), DmxWire(fold, dmx, wv)
                 ri = rw.block(pb.body)
                 wi = resolve_bin(ww.block(eb.body))
@@ -595,7 +623,7 @@ def run(ctx: Any, prog: Program) -> None:
                     walts = [a for a in find_alts(wi) if 'NULL' in a[1] or 'is_null' in a[1]]
                     if len(ralts) != 1 or len(walts) != 1:
                         raise AnalysisError(f'{label}: element reference decode/encode construct not found')
-                    rc, wc = reader_ref_cases(ralts[0], 'ind'), writer_ref_cases(walts[0])
+                    rc, wc = reader_ref_cases(ralts[0], ''), writer_ref_cases(walts[0])
                     for key in sorted(set(rc) | set(wc), key=str):
                         what = {-1: 'NULL (-1)', -2: 'stub (-2)', '*': 'index'}.get(key, str(key))
                         ok = key in rc and key in wc and rc[key] == wc[key]
@@ -854,7 +882,9 @@ def run(ctx: Any, prog: Program) -> None:
         else:
             ctx.shape('C14.X6', False, dmx, queue[0], f'guard around the element queue not recognised: {tests}', func=f'Element.{fname}', text=f'{fname}: stubs not queued')
     # ---- X7 ------------------------------------------------------------------------------------------------
-    cnt = [n for n in walk_no_nested(eb) if isinstance(n, ast.Assign) and dotted(n.targets[0]) == 'attr_count']
+    # the attribute count: the local packed right before the attribute loop, i.e. assigned from a sum()/len() over <elem>.values()
+    cnt = [n for n in walk_no_nested(eb) if isinstance(n, ast.Assign) and isinstance(n.targets[0], ast.Name) and isinstance(n.value, ast.Call) and dotted(n.value.func) in ('sum', 'len')
+           and any(isinstance(x, ast.Call) and isinstance(x.func, ast.Attribute) and x.func.attr == 'values' for x in ast.walk(n.value))]
     if len(cnt) != 1:
         raise AnalysisError('export_binary: attr_count computation not found')
     loop = [n for n in walk_no_nested(eb) if isinstance(n, ast.For) and dotted(n.iter) == 'elem.values' + '' or (isinstance(n, ast.For) and U(n.iter) == 'elem.values()')]
@@ -866,7 +896,7 @@ def run(ctx: Any, prog: Program) -> None:
         raise AnalysisError('export_binary: the name-attribute skip was not found')
     skip_src = U(skip[0].test)
     cnt_src = U(cnt[0].value)
-    adj = [n for n in walk_no_nested(eb) if isinstance(n, ast.If) and any(isinstance(s, ast.AugAssign) and dotted(s.target) == 'attr_count' for s in n.body)]
+    adj = [n for n in walk_no_nested(eb) if isinstance(n, ast.If) and any(isinstance(s, ast.AugAssign) and cnt and dotted(s.target) == cnt[0].targets[0].id for s in n.body)]
     folded_skip = 'casefold()' in skip_src
     if adj:
         adj_src = U(adj[0].test)
